@@ -70,3 +70,232 @@ class MiniscriptBounded:
         if result is None:
             return True
         return (result["predicted"] == result["actual"] and result["reads_back"] and result["back_script"] == result["script"] and result["reparsed"])
+
+
+# ---------------------------------------------------------------- satisfier vs engine
+import hashlib  # noqa: E402
+
+_PRV = list(range(2, 10))
+_PRE = [bytes([0x40 + i]) * 32 for i in range(4)]
+_LOCKTIMES = [0, 1, 99, 100, 101, 499999999, 500000000, 500000001, 600000000]
+_SEQUENCES = [0, 1, 15, 16, 17, 144, 65535, 0xFFFFFFFE, 0xFFFFFFFF, (1 << 22) | 16, (1 << 22) | 17, 1 << 31, (1 << 31) | 16]
+
+
+def _tree(rng, d, want="B"):
+    """a generated expression tree: ('frag', args...).  Any wrapper over any subexpression is
+    allowed to come out; what the type system refuses is skipped by the driver"""
+    c = rng.random()
+    if want == "W":
+        return (rng.choice(["s:", "a:", "s:", "a:"]), _tree(rng, d - 1))
+    if want == "V":
+        return ("v:", _tree(rng, d - 1))
+    if d <= 0 or c < 0.22:
+        k = rng.random()
+        if k < 0.3:
+            return ("pk", rng.randrange(len(_PRV)))
+        if k < 0.4:
+            return ("pkh", rng.randrange(len(_PRV)))
+        if k < 0.55:
+            return ("older", rng.choice([1, 15, 16, 17, 144, 65535, (1 << 22) | 16]))
+        if k < 0.7:
+            return ("after", rng.choice([1, 100, 499999999, 500000000, 500000001]))
+        return (rng.choice(["sha256", "hash256", "ripemd160", "hash160"]), rng.randrange(len(_PRE)))
+    if c < 0.36:
+        return ("and_v", _tree(rng, d, "V"), _tree(rng, d - 1))
+    if c < 0.46:
+        return ("and_b", _tree(rng, d - 1), _tree(rng, d, "W"))
+    if c < 0.54:
+        return ("or_b", ("pk", rng.randrange(len(_PRV))), _tree(rng, d, "W"))
+    if c < 0.62:
+        return ("or_d", ("pk", rng.randrange(len(_PRV))), _tree(rng, d - 1))
+    if c < 0.68:
+        return ("or_c_v", ("pk", rng.randrange(len(_PRV))), _tree(rng, d, "V"), _tree(rng, d - 1))
+    if c < 0.76:
+        return ("or_i", _tree(rng, d - 1), _tree(rng, d - 1))
+    if c < 0.84:
+        return ("andor", ("pk", rng.randrange(len(_PRV))), _tree(rng, d - 1), _tree(rng, d - 1))
+    if c < 0.93:
+        n = rng.choice([2, 3])
+        return ("thresh", rng.randrange(1, n + 1), _tree(rng, d - 1)) + tuple(_tree(rng, d, "W") for _ in range(n - 1))
+    ks = rng.sample(range(len(_PRV)), rng.choice([2, 3]))
+    return ("multi", rng.randrange(1, len(ks) + 1)) + tuple(ks)
+
+
+def _text(t, ctx):
+    f = t[0]
+    key = lambda i: (sec_compressed(C.mul(_PRV[i], C.G)) if ctx == M.P2WSH else sec_compressed(C.mul(_PRV[i], C.G))[1:]).hex()
+    if f in ("pk", "pkh"):
+        return f"{f}({key(t[1])})"
+    if f in ("older", "after"):
+        return f"{f}({t[1]})"
+    if f in ("sha256", "hash256", "ripemd160", "hash160"):
+        return f"{f}({_digest(f, _PRE[t[1]]).hex()})"
+    if f in ("s:", "a:", "v:"):
+        inner = _text(t[1], ctx)
+        # wrappers chain without a second colon: v: over s:X is written vs:X
+        head, sep, _ = inner.partition(":")
+        if sep and head and all(ch in "asctdvjnlu" for ch in head):
+            return f[0] + inner
+        return f + inner
+    if f == "or_c_v":
+        return f"and_v(v:or_c({_text(t[1], ctx)},{_text(t[2], ctx)}),{_text(t[3], ctx)})"
+    if f == "thresh":
+        return f"thresh({t[1]}," + ",".join(_text(x, ctx) for x in t[2:]) + ")"
+    if f == "multi":
+        name = "multi" if ctx == M.P2WSH else "multi_a"
+        return f"{name}({t[1]}," + ",".join(key(i) for i in t[2:]) + ")"
+    return f"{f}(" + ",".join(_text(x, ctx) for x in t[1:]) + ")"
+
+
+def _digest(f, pre):
+    if f == "sha256":
+        return hashlib.sha256(pre).digest()
+    if f == "hash256":
+        return hashlib.sha256(hashlib.sha256(pre).digest()).digest()
+    if f == "ripemd160":
+        from spec.bip32_ref import h160  # noqa: F401
+        return hashlib.new("ripemd160", pre).digest()
+    return hashlib.new("ripemd160", hashlib.sha256(pre).digest()).digest()
+
+
+def _holds(t, keys, pres, locktime, sequence):
+    """the spending condition of the tree for what is available (BIP379 semantics; BIP65 / BIP112
+    for the lock times)"""
+    f = t[0]
+    if f in ("pk", "pkh"):
+        return t[1] in keys
+    if f == "older":
+        v = t[1]
+        if sequence & (1 << 31):
+            return False
+        if (v & (1 << 22)) != (sequence & (1 << 22)):
+            return False
+        return (v & 0xFFFF) <= (sequence & 0xFFFF)
+    if f == "after":
+        v = t[1]
+        if (v >= 500000000) != (locktime >= 500000000):
+            return False
+        return v <= locktime and sequence != 0xFFFFFFFF
+    if f in ("sha256", "hash256", "ripemd160", "hash160"):
+        return t[1] in pres
+    if f in ("s:", "a:", "v:"):
+        return _holds(t[1], keys, pres, locktime, sequence)
+    h = lambda x: _holds(x, keys, pres, locktime, sequence)
+    if f in ("and_v", "and_b"):
+        return h(t[1]) and h(t[2])
+    if f in ("or_b", "or_d", "or_i"):
+        return h(t[1]) or h(t[2])
+    if f == "or_c_v":
+        return (h(t[1]) or h(t[2])) and h(t[3])
+    if f == "andor":
+        return (h(t[1]) and h(t[2])) or h(t[3])
+    if f == "thresh":
+        return sum(1 for x in t[2:] if h(x)) >= t[1]
+    if f == "multi":
+        return sum(1 for i in t[2:] if i in keys) >= t[1]
+    raise LookupError(f)
+
+
+def _gen_spend_ms(rng):
+    ctx = rng.choice([M.P2WSH, M.P2WSH, M.TAPSCRIPT])
+    if rng.random() < 0.12:
+        # a chain at the executed-op limit: n times v:older(k), then a key
+        n, k = rng.choice([60, 97, 98, 99, 100, 101]), rng.choice([15, 16, 17])
+        t = ("pk", 0)
+        for _ in range(n):
+            t = ("and_v", ("v:", ("older", k)), t)
+        return dict(tree=t, context=ctx, keys=[0], pres=[], locktime=0, sequence=rng.choice([16, 17, 144]))
+    if rng.random() < 0.15:
+        # a wrapper over a compound of plain keys, every key available: the stack-shape
+        # properties (z, o, n) of the compound decide whether the wrapper is well typed
+        leaf = lambda: (rng.choice(["pk", "pk", "pkh"]), rng.randrange(len(_PRV)))
+        y = rng.choice([("and_v", ("v:", leaf()), leaf()), ("or_i", leaf(), leaf()), ("andor", leaf(), leaf(), leaf()), ("or_d", leaf(), leaf()),
+                        ("and_b", leaf(), ("s:", leaf())), ("and_v", ("v:", leaf()), ("and_v", ("v:", leaf()), leaf()))])
+        w = (rng.choice(["s:", "a:"]), y)
+        t = rng.choice([("and_b", leaf(), w), ("or_b", leaf(), w), ("thresh", rng.choice([1, 2]), leaf(), w)])
+        return dict(tree=t, context=ctx, keys=list(range(len(_PRV))), pres=[], locktime=0, sequence=0)
+    t = _tree(rng, rng.choice([1, 2, 2, 3]))
+    nk = rng.choice([0, 2, 4, 8, 8])
+    return dict(tree=t, context=ctx, keys=sorted(rng.sample(range(len(_PRV)), nk)), pres=sorted(rng.sample(range(len(_PRE)), rng.choice([0, 2, 4]))),
+                locktime=rng.choice(_LOCKTIMES), sequence=rng.choice(_SEQUENCES))
+
+
+def miniscript_spend(tree, context, keys, pres, locktime, sequence):
+    """parse the generated expression; when the library calls it sane, sign for the available
+    keys with the reference signers over the reference digests, ask for a satisfaction and hand
+    the witness to the engine"""
+    from btclib.script.engine import verify_input
+    from btclib.script.script_pub_key import ScriptPubKey
+    from btclib.script.witness import Witness
+    from btclib.tx.out_point import OutPoint
+    from btclib.tx.tx import Tx
+    from btclib.tx.tx_in import TxIn
+    from btclib.tx.tx_out import TxOut
+    from spec import bip340_ref, sighash as sh, taproot_ref
+    from spec.der import der_sig
+    from spec.ecdsa_ref import sign_raw
+    text = _text(tree, context)
+    try:
+        node = M.parse(text, context)
+    except BTClibValueError:
+        return dict(sane=False)
+    if not node.is_sane:
+        return dict(sane=False)
+    script = node.script()
+    tx = Tx(2, locktime, [TxIn(OutPoint(b"\x03" * 32, 0), b"", sequence, Witness([]), check_validity=False)], [TxOut(900, b"\x51")], check_validity=False)
+    sigs = {}
+    if context == M.P2WSH:
+        spk = b"\x00\x20" + hashlib.sha256(script).digest()
+        prevouts = [TxOut(5000, ScriptPubKey(spk, check_validity=False), check_validity=False)]
+        digest = sh.bip143(script, tx, 0, 1, 5000)
+        for i in keys:
+            r, s, _ = sign_raw(C, int.from_bytes(digest, "big"), _PRV[i], int.from_bytes(hashlib.sha256(digest + bytes([i])).digest(), "big") % C.n or 1)
+            sigs[sec_compressed(C.mul(_PRV[i], C.G))] = der_sig(r, min(s, C.n - s)) + b"\x01"
+        tail = [script]
+    else:
+        internal = C.mul(77, C.G)[0].to_bytes(32, "big")
+        lh = taproot_ref.leaf_hash(0xC0, script)
+        parity, q = taproot_ref.tweak_pubkey(internal, lh)
+        prevouts = [TxOut(5000, ScriptPubKey(b"\x51\x20" + q, check_validity=False), check_validity=False)]
+        msg = sh.bip341(tx, 0, prevouts, 0, 1, b"", lh + b"\x00" + b"\xff\xff\xff\xff")
+        for i in keys:
+            sigs[sec_compressed(C.mul(_PRV[i], C.G))[1:]] = bip340_ref.sign(msg, _PRV[i], bytes(32))
+        tail = [script, bytes([0xC0 | parity]) + internal]
+    spend = M.SpendContext(sha256_preimages={_digest("sha256", _PRE[i]): _PRE[i] for i in pres}, hash256_preimages={_digest("hash256", _PRE[i]): _PRE[i] for i in pres},
+                           ripemd160_preimages={_digest("ripemd160", _PRE[i]): _PRE[i] for i in pres}, hash160_preimages={_digest("hash160", _PRE[i]): _PRE[i] for i in pres},
+                           locktime=locktime, sequence=sequence, version=2)
+    try:
+        stack = node.satisfy(sigs, spend)
+    except BTClibValueError:
+        return dict(sane=True, produced=False, text=text)
+    tx.vin[0].script_witness = Witness(list(stack) + tail)
+    try:
+        verify_input(prevouts, tx, 0)
+        accepted, why = True, ""
+    except BTClibValueError as e:
+        accepted, why = False, str(e)[:100]
+    return dict(sane=True, produced=True, accepted=accepted, why=why, text=text, n_items=len(stack), size=sum(len(x) for x in stack),
+                max_items=node.max_stack_items, max_size=node.max_witness_size, max_ops=node.max_ops, script_len=len(script), predicted=node.script_size)
+
+
+@contract("contracts.c_miniscript.miniscript_spend", gen=_gen_spend_ms, props="C15", n_quick=400, n_thorough=12000,
+          rule="generated expressions (depth <= 3) over pk, pkh, older, after, four hashes, and_v, and_b, or_b, or_c, or_d, or_i, andor, thresh, multi / multi_a with s: a: v: wrappers over any subexpression (ill-typed ones are the type system's to refuse); chains of 60..101 v:older(15|16|17) at the 201-op limit; 8 keys, 4 preimages, 9 lock times and 13 sequences at the BIP65/BIP112 boundaries; P2WSH with reference ECDSA over BIP143, tapscript with reference BIP340 over BIP341")
+class MiniscriptSpendBounded:
+    """a satisfaction the library produces for an expression it calls sane makes the engine accept
+    the compiled script, only when the spending condition holds for what was available, within the
+    predicted witness items / bytes; P2WSH programs stay within 201 ops"""
+
+    def post_satisfaction_is_sound(tree, context, keys, pres, locktime, sequence, result):
+        if not result["sane"] or not result["produced"]:
+            return True
+        ok = result["accepted"] and _holds(tree, set(keys), set(pres), locktime, sequence)
+        ok = ok and result["n_items"] <= result["max_items"] and result["predicted"] == result["script_len"]
+        if context == M.P2WSH:
+            ok = ok and result["max_ops"] <= 201
+        return ok
+
+    def post_witness_size_within_bound(result):
+        if not result["sane"] or not result["produced"]:
+            return True
+        # the static bound counts a 73-byte ECDSA signature where the reference signer's low-s DER is 71..72
+        return result["size"] <= result["max_size"]
